@@ -2,5 +2,17 @@
 EXTENDS ImbMgr
 CONSTANT MaxSub
 Bound == SubBound(MaxSub)
+
+\* reduced next-state relation for the multi-manager configuration: single-job API, re-init, re-attach
+NextJobApi ==
+    \E m \in Mgr :
+        \/ \E valid \in BOOLEAN, chk \in BOOLEAN, D \in SUBSET (ProcIds(m) \cup {nextId[m]}) :
+              SubmitJob(m, valid, chk, 2001, D)
+        \/ \E D \in SUBSET ProcIds(m) : FlushJob(m, D)
+        \/ GetCompletedJob(m)
+        \/ QueueSize(m)
+        \/ InitMgr(m, 0, 0)
+InitZero == Init /\ next = [m \in Mgr |-> 0]
+SpecJobApi == InitZero /\ [][NextJobApi]_vars
 \* ghost/history variables are hidden from the state fingerprint except what the invariants need
 =============================================================================
